@@ -38,8 +38,20 @@ pub fn take_panic_location() -> Option<String> {
     LAST_PANIC_LOCATION.with(|l| l.borrow_mut().take())
 }
 
+/// Number of times the harness's own panic hook ran: lets a worker probe whether the code under
+/// test replaced the process-wide hook and failed to put it back.
+pub static HARNESS_HOOK_CALLS: std::sync::atomic::AtomicU64 = std::sync::atomic::AtomicU64::new(0);
+
+/// `true` if a panic raised now still reaches the hook the harness installed.
+pub fn panic_hook_is_ours() -> bool {
+    let before = HARNESS_HOOK_CALLS.load(std::sync::atomic::Ordering::SeqCst);
+    let _ = std::panic::catch_unwind(|| std::panic::panic_any(Sentinel::Abort));
+    HARNESS_HOOK_CALLS.load(std::sync::atomic::Ordering::SeqCst) > before
+}
+
 fn install_quiet_panic_hook() {
     std::panic::set_hook(Box::new(|info| {
+        HARNESS_HOOK_CALLS.fetch_add(1, std::sync::atomic::Ordering::SeqCst);
         let loc = info
             .location()
             .map(|l| format!("{}:{}", l.file(), l.line()));
